@@ -188,6 +188,16 @@ impl HelperApp {
     }
 }
 
+/// Accessor for the verification harness (feature `ipa-verif`, test builds only): the query
+/// processor behind this app's request handlers, so that a lifecycle suite can observe the stored
+/// query state and replace a started query task by a stub. Not compiled otherwise.
+#[cfg(all(test, feature = "ipa-verif"))]
+impl HelperApp {
+    pub(crate) fn ipa_verif_query_processor(&self) -> &QueryProcessor {
+        &self.inner.query_processor
+    }
+}
+
 fn ext_query_id<I: TransportIdentity>(req: &Addr<I>) -> Result<QueryId, ApiError> {
     req.query_id
         .ok_or_else(|| ApiError::BadRequest("Query input is missing query_id argument".into()))
